@@ -163,6 +163,34 @@ def check(run, model, tier):
                      '' if ok_ else ('the frame is inspected with a context of %s lines and the classifier is given lines[%s]: that is the executing line only when the window could be centred on it; '
                                      'for a statement on the first or last line of its file it is a neighbouring line - a plain read next to an augmented assignment keeps the lock for good'
                                      % (cval, norm(idx))), node=sb, obligation=True)
+    # ... and there may be no such line: inspect hands out code_context None (FrameData.lines None) for code without source text - exec(), python -c, the interactive
+    # prompt.  Subscripting it raises TypeError; where that happens with the lock already taken and nothing to give it back, the calling thread keeps the lock
+    run.rule('PROTO.source-available', 'the frame info\'s line list is subscripted only under a test that it is there (it is None for code without source), or with the lock not yet held')
+    from sa.boolflow import must_atoms as _ma28
+    n_sub = 0
+    for sb in [n_ for n_ in walk_shallow(get.node) if isinstance(n_, ast.Subscript) and isinstance(n_.ctx, ast.Load) and isinstance(n_.value, ast.Attribute)
+               and n_.value.attr in ('lines', 'code_context')]:
+        n_sub += 1
+        node_ = next((m_ for m_ in g.nodes if m_.kind not in ('entry', 'exit', 'xexit', 'def') and any(x_ is sb for x_ in m_.walk())), None)
+        if node_ is None:
+            raise AnalysisError('__get__: subscript of the line list not located in the CFG')
+        vtxt = norm(sb.value)
+        atoms = _ma28(g, node_, get.node, params=get.params)
+        guarded = any(l_ == vtxt and (op_ == 'Truthy' or (op_ in ('IsNot', 'NotEq') and r_ == 'None')) for (l_, op_, r_) in atoms) or \
+            any(r_ == vtxt and op_ in ('IsNot', 'NotEq') and l_ == 'None' for (l_, op_, r_) in atoms) or \
+            any(l_ == 'len(%s)' % vtxt and (op_ == 'Truthy' or (op_ in ('Gt', 'NotEq') and r_ == '0') or (op_ == 'GtE' and r_ == '1')) for (l_, op_, r_) in atoms)
+        # inside a try whose handlers / finally give the lock back the failure is harmless too
+        protected = any(isinstance(t_, ast.Try) and any(x_ is sb for b_ in t_.body for x_ in ast.walk(b_)) and
+                        any(isinstance(c_, ast.Call) and isinstance(c_.func, ast.Attribute) and c_.func.attr == 'release'
+                            for part in ([h_.body for h_ in t_.handlers] + [t_.finalbody]) for st_ in part for c_ in ast.walk(st_))
+                        for t_ in walk_shallow(get.node))
+        held_ = any(g.dominates(a, node_) for a in acquires)
+        ok_ = guarded or protected or not held_
+        run.inst('PROTO.source-available', get, 'subscript of the line list %s is guarded' % norm(sb), ok_,
+                 '' if ok_ else ('__get__ takes %s with the lock held and without testing that %s is there: inspect gives None for a caller without source text (exec, python -c, the '
+                                 'interactive prompt), the subscript raises TypeError, and the statement ends with the calling thread still holding the attribute\'s lock - every '
+                                 'other thread that touches the attribute blocks for good' % (norm(sb), vtxt)), node=sb, obligation=True)
+    run.note('subscripts of the frame info line list in __get__: %d' % n_sub)
     # acquire dominates the classification
     run.inst('PROTO.keep-lock-branch', get, 'acquire dominates classification', any(g.dominates(a, ctest) for a in acquires),
              'the lock is not held when the line is classified', node=ctest.ast, obligation=True)
